@@ -168,7 +168,7 @@ class CliSim:
                     inv['user_fault'] = rng.choice(USER_FAULTS[cmd])
                 if cmd == 'clip':
                     g = clipsim.gen_geometry(rng, world)
-                    form = rng.choice(['bounds', 'bounds', 'geojson_string', 'geojson_file', 'json_file'])
+                    form = rng.choice(['bounds', 'bounds', 'geojson_string', 'geojson_file', 'json_file', 'shared_file', 'shared_file'])
                     earlier = [i['work_dir'] for lt_ in lts for i in lt_['invocations'] if i.get('work_dir')] + [i['work_dir'] for i in invs if i.get('work_dir')]
                     if earlier and rng.random() < 0.6:
                         wd = rng.choice(earlier)      # the scratch directory of an earlier run, with whatever it left behind
@@ -403,6 +403,11 @@ class CliSim:
         gj = json.dumps(_geojson_of(inv['geom']['wkt']))
         if form == 'geojson_string':
             return gj
+        if form == 'shared_file':
+            # the user keeps one region file and edits it between runs: same argument text, other content
+            path = os.path.join(scratch, 'region.geojson')
+            inv['_pre_write'] = [path, gj]
+            return path
         path = os.path.join(scratch, inv['out'] + ('.geom.geojson' if form == 'geojson_file' else '.geom.json'))
         with open(path, 'w') as f:
             f.write(gj)
@@ -423,8 +428,9 @@ class CliSim:
                 if inv['cmd'] == 'grammar':
                     prepared.append({'inv': inv})
                 else:
+                    inv = dict(inv)
                     argv, outp = self.build(inv, scratch, plan['world'])
-                    prepared.append({'inv': inv, 'argv': argv, 'out': outp})
+                    prepared.append({'inv': inv, 'argv': argv, 'out': outp, 'pre_write': inv.pop('_pre_write', None)})
             # each invocation that carries a crash fault ends its lifetime; split accordingly
             groups, cur = [], []
             for p in prepared:
@@ -656,6 +662,9 @@ def _cli_lifetime(ctx, group, scratch, tag, file_cache_maxsize=128):
                 ctx.observe(f'grammar{n}', {'error': type(e).__name__})
                 ctx.emit('invocation', n=n, cmd='grammar', status=2, accepted_as_box=False)
             continue
+        if p.get('pre_write'):
+            with open(p['pre_write'][0], 'w') as fh:
+                fh.write(p['pre_write'][1])
         err_path = os.path.join(scratch, f'{tag}.{n}.stderr')
         out_path = os.path.join(scratch, f'{tag}.{n}.stdout')
         old = sys.stdout, sys.stderr
@@ -747,6 +756,9 @@ def _reference_lifetime(ctx, inv, p, scratch):
     from emsarray.utils import to_netcdf_with_fixes
     cmd = inv['cmd']
     argv = p['argv']
+    if p.get('pre_write'):
+        with open(p['pre_write'][0], 'w') as fh:
+            fh.write(p['pre_write'][1])
     pos = [a for a in argv if not a.startswith('-')]
     ref_out = p['out'] + '.ref' + os.path.splitext(p['out'])[1]
     result = {}
